@@ -42,28 +42,72 @@ func gSnap(rows []row) string {
 	return "[" + strings.Join(it, "; ") + "]"
 }
 
+// genRaw: mostly well-formed scripts (acquire, lock, delete/unlock, release) over 3 tag lines, with
+// misuse sprinkled in (20%): the generator keeps a rough guess of which source index a tag line
+// has, only to aim its arguments
 func genRaw(r *Rng) Replay {
-	n := r.PickInt(6, 12, 25)
-	ops := make([]ROp, n)
-	for i := range ops {
-		x := r.Intn(100)
-		p := r.Intn(4)
-		switch {
-		case x < 25:
-			ops[i] = ROp{K: "acqt", Tag: r.Intn(3), Create: !r.Chance(1, 4)}
-		case x < 40:
-			ops[i] = ROp{K: "acqi", P: p, Lock: !r.Chance(1, 4)}
-		case x < 60:
-			ops[i] = ROp{K: "rel", P: p}
-		case x < 78:
-			ops[i] = ROp{K: "lock", P: p}
-		case x < 88:
-			ops[i] = ROp{K: "unlock", P: p}
+	pre := r.Range(0, 3)
+	cur := map[int]int{}
+	next := pre
+	for t := 0; t < pre; t++ {
+		cur[t] = t
+	}
+	var ops []ROp
+	nb := r.PickInt(2, 4, 7)
+	for b := 0; b < nb; b++ {
+		t := r.Intn(3)
+		if r.Chance(1, 5) {
+			p := r.Intn(next + 2)
+			switch r.Intn(6) {
+			case 0:
+				ops = append(ops, ROp{K: "rel", P: p})
+			case 1:
+				ops = append(ops, ROp{K: "lock", P: p})
+			case 2:
+				ops = append(ops, ROp{K: "unlock", P: p})
+			case 3:
+				ops = append(ops, ROp{K: "del", P: p})
+			case 4:
+				ops = append(ops, ROp{K: "acqi", P: p, Lock: r.Chance(1, 2)})
+			default:
+				ops = append(ops, ROp{K: "acqt", Tag: t, Create: false})
+			}
+			continue
+		}
+		p, ok := cur[t]
+		if !ok {
+			p = next
+			next++
+			cur[t] = p
+		}
+		if r.Chance(1, 3) {
+			ops = append(ops, ROp{K: "acqi", P: p, Lock: true})
+		} else {
+			ops = append(ops, ROp{K: "acqt", Tag: t, Create: true})
+		}
+		extra := 0
+		if r.Chance(1, 4) { // a second holder: the lock must fail
+			ops = append(ops, ROp{K: "acqi", P: p, Lock: true})
+			extra = 1
+		}
+		switch r.Intn(4) {
+		case 0:
+			ops = append(ops, ROp{K: "rel", P: p})
+		case 1:
+			ops = append(ops, ROp{K: "lock", P: p}, ROp{K: "acqt", Tag: t, Create: true}, ROp{K: "unlock", P: p}, ROp{K: "rel", P: p})
+		case 2:
+			ops = append(ops, ROp{K: "lock", P: p}, ROp{K: "del", P: p}, ROp{K: "unlock", P: p}, ROp{K: "rel", P: p})
+			if extra == 0 {
+				delete(cur, t)
+			}
 		default:
-			ops[i] = ROp{K: "del", P: p}
+			ops = append(ops, ROp{K: "del", P: p}, ROp{K: "rel", P: p})
+		}
+		for k := 0; k < extra; k++ {
+			ops = append(ops, ROp{K: "rel", P: p})
 		}
 	}
-	return Replay{Kind: "raw", Pre: r.Range(0, 3), Ops: ops}
+	return Replay{Kind: "raw", Pre: pre, Ops: ops}
 }
 
 func call(f func()) (pv interface{}) {
@@ -77,6 +121,7 @@ func mkRaw(rp Replay) (*Case, error) {
 	if err != nil {
 		return nil, err
 	}
+	defer w.close()
 	prev, err := w.snapshot()
 	if err != nil {
 		return nil, err
